@@ -177,6 +177,9 @@ func Open(cfg Config, pkgPaths []string) (*Session, error) {
 				return
 			}
 			ip.InitAllow = initAllowed
+			if os.Getenv("GOSYM_FORKSITES") != "" {
+				ip.ForkSites = map[string]int{}
+			}
 			ip.EmbedFiles = embed
 			ip.Debug = cfg.Debug && i == 0
 			var ierrs []string
@@ -272,6 +275,16 @@ func (s *Session) SolverTotals() SolverTotals {
 		t.EnumQueries += w.Stats.EnumQueries
 	}
 	return t
+}
+
+func (s *Session) ForkSites() map[string]int {
+	out := map[string]int{}
+	for _, w := range s.workers {
+		for k, v := range w.ForkSites {
+			out[k] += v
+		}
+	}
+	return out
 }
 
 func (s *Session) harnessFunc(pkg, fn string) (*ssa.Function, error) {
